@@ -153,6 +153,15 @@ impl Vmer for DnaString {
     }
 }
 
+// With the `verif_hooks` feature, CPU feature detection in this module can be overridden
+// per thread so that the scalar fallback of `from_acgt_bytes` runs on AVX2 machines.
+#[cfg(all(feature = "verif_hooks", any(target_arch = "x86", target_arch = "x86_64")))]
+macro_rules! is_x86_feature_detected {
+    ($feat:tt) => {
+        (std::is_x86_feature_detected!($feat) && !crate::verif_hooks::force_scalar())
+    };
+}
+
 impl DnaString {
     /// Create an empty DNA string
     pub fn new() -> DnaString {
